@@ -158,6 +158,39 @@ Theorem C03_standin : forall m h c M1 t1 M2 t2,
 Proof. exact spec_round_standin. Qed.
 Print Assumptions C03_standin.
 
+From Dashu Require Import Float.SqrtModelProof.
+
+(** as-is model of float/src/root.rs: one rounding of the integer root of the exactly scaled radicand *)
+Theorem C03_sqrt : forall B, 2 <= B -> forall p m s e, 1 <= p -> 0 <= s -> dlen B s <= p ->
+  let shift := sqrt_shift B p s e in
+  let N := s * B ^ shift in
+  0 <= shift /\ e - shift = 2 * ((e - shift) / 2) /\
+  exists a, ctx_sqrt B p m s e = Ok a /\ rounded_sqrt B p m N ((e - shift) / 2) a.
+Proof. exact ctx_sqrt_correct. Qed.
+Print Assumptions C03_sqrt.
+
+Theorem C03_sqrt_round_is_the_contract : forall m N, 0 <= N -> Z.sqrt N * Z.sqrt N <> N ->
+  let t := Z.sqrt N in let R := sqrt_round m N in
+  t * t < N < (t + 1) * (t + 1) /\ (R = t \/ R = t + 1) /\
+  match m with
+  | MDown | MZero => R * R < N
+  | MUp | MAway => N < R * R
+  | MHalfEven | MHalfAway => (2 * R - 1) * (2 * R - 1) < 4 * N < (2 * R + 1) * (2 * R + 1)
+  end.
+Proof. exact sqrt_round_contract. Qed.
+Print Assumptions C03_sqrt_round_is_the_contract.
+
+Theorem C03_sqrt_panics : forall B p m s e,
+  (p = 0 -> ctx_sqrt B p m s e = Panic UnlimitedPrecision) /\
+  (p <> 0 -> s < 0 -> ctx_sqrt B p m s e = Panic RootNegative).
+Proof. exact ctx_sqrt_panics. Qed.
+Print Assumptions C03_sqrt_panics.
+
+Example C03_sqrt_nonvacuous :
+  ctx_sqrt 10 3 MHalfAway 15 1 = Ok (AInexact 122 (-1) NoOp) /\ ctx_sqrt 10 2 MHalfEven 4 0 = Ok (AExact 2 0) /\
+  ctx_sqrt 10 2 MUp 9999 (-4) = Ok (AInexact 1 0 AddOne) /\ dlen 10 15 <= 3.
+Proof. vm_compute. repeat split; discriminate. Qed.
+
 Example C03_add_nonvacuous :
   ctx_add_x 10 3 MHalfEven 123 0 456 (-2) = AInexact 128 0 AddOne /\
   ctx_add_x 2 10 MHalfAway 1 0 1 (-30) = AInexact 512 (-9) NoOp /\
